@@ -4,7 +4,8 @@ import seqprop
 from props import _seqplans
 import schedupper
 
-THEOREMS = json.load(open(os.path.join(os.path.dirname(__file__), "_theorems.json")))["C13"]
+THEOREMS = {"C13.v": json.load(open(os.path.join(os.path.dirname(__file__), "_theorems.json")))["C13"],
+            "C13c.v": ["C13_every_interleaving"]}
 
 
 def run(ctx):
@@ -13,5 +14,5 @@ def run(ctx):
         ctx, THEOREMS, corr=('result', 'class'), oracle=('C13',),
         quick_plan=quick, thorough_plan=thorough, corpus_tags=(),
         extra=schedupper.run_c13_conc,
-        text="Coq theorem for ANY policy (including ones with Invalid pairs), any state and any call: a successful get reports the requested class or a class t for which the policy, evaluated in the same call, answered Match or Steal; a path-local fact of LLFree::get (each return site's class comes from a policy evaluation on the entry value it committed), hence also along every history. Sequential statement proved; the concurrent statement is not a theorem here (the value used is the one the successful CAS committed, so interference cannot change it; checked on every explored interleaving of machine M2 against the real allocator). Tied to the code by evaluating the extracted policy on the class component of every result, incl. a custom policy with unusable pairs.",
+        text="Coq theorem for ANY policy (including ones with Invalid pairs), any state and any call: a successful get reports the requested class or a class t for which the policy, evaluated in the same call, answered Match or Steal; a path-local fact of LLFree::get (each return site's class comes from a policy evaluation on the entry value it committed), hence also along every history. Proved both for sequential histories (Upper.v) and for EVERY interleaving of the whole-allocator machine M2 (any number of threads, any schedule, any memory): a thread-local invariant over (primitive, continuation stack). Tied to the code by evaluating the extracted policy on the class component of every result, incl. a custom policy with unusable pairs.",
         rule=_seqplans.RULE)
